@@ -182,9 +182,26 @@ def _window(ctx, p, f, n, inner, iv):
         if q2 is None or q2['k'] != 'VarDecl' or 'const' not in (q2.get('t') or '').split('*')[-1]:
             return None
         results[q2['id']] = e2['ref']['id']
+    def differs(node, eid):
+        for c_, t_ in guard_facts(f, node):
+            c0 = strip_casts(c_)
+            if c0['k'] == 'BinaryOperator' and c0.get('op') in ('==', '!='):
+                ids = sorted((strip_casts(y).get('ref') or {}).get('id', -1) for y in kids(c0))
+                if any(ids == sorted([rid, eid]) for rid, e_ in results.items() if e_ == eid) and (c0['op'] == '!=') == t_:
+                    return True
+        return False
     for eid in ends:
         for u in uses(eid):
             x, q = up(u)
+            if q is not None and q['k'] == 'BinaryOperator' and q.get('op') == '-' and kids(q)[0] is x and \
+                    const_of(strip_casts(kids(q)[1])) == 1:
+                # *(e - 1): the last element, where some position in [b, e) differs from e (the window is not empty)
+                x2, q2 = up(q)
+                if q2 is not None and q2['k'] == 'UnaryOperator' and q2.get('op') == '*':
+                    if not differs(q2, eid):
+                        return False
+                    continue
+                return None
             if q is None or not ((q['k'] == 'CallExpr' and q in pending and kids(q)[2] is x) or
                                  (q['k'] == 'BinaryOperator' and q.get('op') in ('==', '!='))):
                 return None
